@@ -178,8 +178,10 @@ class SimOps:
         # translate circuit structure into self.ops
         ops = []
         interface_dict = dict((n, i) for i, n in enumerate(circuit.s_nodes))
+        # a port that is a driven fork is an output that is also read inside the circuit: it forwards its driver's value.
+        def is_driven_fork(n): return n.kind == '__fork__' and len(n.ins) > 0 and n.ins[0] is not None
         for n in circuit.topological_order():
-            if n in interface_dict:
+            if n in interface_dict and not is_driven_fork(n):
                 inp_idx = self.ppi_offset + interface_dict[n]
                 if len(n.outs) > 0 and n.outs[0] is not None:  # first output of a PI/PPI
                     ops.append((BUF1, n.outs[0].index, inp_idx, self.zero_idx, self.zero_idx, self.zero_idx, *a_ctrl[n.outs[0]]))
@@ -271,7 +273,7 @@ class SimOps:
 
         # allocate and keep memory for PI/PPI, keep memory for PO/PPO (allocated later)
         for i, n in enumerate(circuit.s_nodes):
-            if len(n.outs) > 0:
+            if len(n.outs) > 0 and not is_driven_fork(n):
                 self.c_locs[self.ppi_offset + i], self.c_caps[self.ppi_offset + i] = h.alloc(c_caps_min), c_caps_min
                 ref_count[self.ppi_offset + i] += 1
             if len(n.ins) > 0:
